@@ -81,6 +81,10 @@ CONFIGS = [
     ("ns_cov", "solver.NewtonSchulzPseudoinverse", {"gamma": 1.0, "max_iter": 12, "compute_residuals": False},
      "compute", NS_POOL),
     ("hon", "solver.HigherOrderNewtonSchulzPseudoinverse", {"max_iter": 8, "tol": 1e-10}, "compute", NS_POOL),
+    ("gmres_verbose", "solver.QGMRESSolver", {"tol": 1e-8, "verbose": True, "preconditioner": "left_lu"}, "solve", GM_POOL),
+    ("rsp_verbose", "solver.RandomizedSketchProjectPseudoinverse",
+     {"block_size": 2, "max_iter": 12, "tol": 1e-6, "verbose": True, "column_solver": "spd"}, "compute", PINV_POOL),
+    ("cgne_verbose", "solver.CGNEQSolver", {"tol": 1e-9, "max_iter": 20, "verbose": True}, "compute", TALL_POOL),
     ("deep", "solver.DeepLinearNewtonSchulz", {"max_iter": 2, "tol": 1e-6}, "compute", DL_POOL),
     ("deep_rand", "solver.DeepLinearNewtonSchulz", {"max_iter": 1, "random_init": True, "inner_iterations": 2},
      "compute", DL_POOL),
@@ -403,6 +407,8 @@ def _random_problem(R, cfgname):
         A = SQ(n, s, [round(R.uniform(0.3, 1.0), 4) for _ in range(n)])
         if R.random() < 0.25:
             A = SP(A)
+            if R.random() < 0.4:
+                A["explicit_zeros"] = True
         x = R.random()
         if x < 0.12:    # requests that pass the shape guards and fail inside the iteration
             return [A, {"gen": "ravel", "of": G(n, 1, s + 1)}]
